@@ -947,73 +947,93 @@ Proof.
   destruct (emit_wells false w L1 _ kw) as [w' e3]. injection H as <- <-. apply Hupd.
 Qed.
 
-(* ------------------------------------------------------------------ the interpreter keeps the racks' names *)
+(* ------------------------------------------------------------------ the interpreter keeps the racks' frames *)
 
-Lemma with_rack_names rb k r r' tip : nth_error (rb_racks rb) k = Some r -> rk_name r' = rk_name r ->
-  map rk_name (rb_racks (with_rack rb k r' tip)) = map rk_name (rb_racks rb).
-Proof.
-  intros Hr Hn. unfold with_rack. cbn [rb_racks]. rewrite map_upd, Hn. apply upd_same.
-  apply map_nth_error. exact Hr.
-Qed.
+Section Frames.
+  Context {A : Type} (pr : rack -> A).
+  Hypothesis Hpr : forall r r', rk_name r' = rk_name r -> rk_geom r' = rk_geom r -> pr r' = pr r.
 
-Lemma do_aspirate_names c d rb label p v rb' : do_aspirate c d rb label p v = Some rb' ->
+  Lemma with_rack_proj rb k r r' tip : nth_error (rb_racks rb) k = Some r ->
+    rk_name r' = rk_name r -> rk_geom r' = rk_geom r ->
+    map pr (rb_racks (with_rack rb k r' tip)) = map pr (rb_racks rb).
+  Proof.
+    intros Hr Hn Hg. unfold with_rack. cbn [rb_racks]. rewrite map_upd, (Hpr r r' Hn Hg). apply upd_same.
+    apply map_nth_error. exact Hr.
+  Qed.
+
+  Lemma do_aspirate_proj c d rb label p v rb' : do_aspirate c d rb label p v = Some rb' ->
+    map pr (rb_racks rb') = map pr (rb_racks rb).
+  Proof.
+    unfold do_aspirate. intro H.
+    destruct (find_rack (rb_racks rb) label) as [k|]; [|discriminate].
+    destruct (nth_error (rb_racks rb) k) as [r|] eqn:Hr; [|discriminate].
+    destruct (unpos d (rk_geom r) p) as [i|]; [|discriminate].
+    destruct (c && _); [discriminate|]. injection H as <-.
+    apply (with_rack_proj _ _ r); [exact Hr|reflexivity|reflexivity].
+  Qed.
+
+  Lemma do_dispense_proj c d rb label p v rb' : do_dispense c d rb label p v = Some rb' ->
+    map pr (rb_racks rb') = map pr (rb_racks rb).
+  Proof.
+    unfold do_dispense. intro H.
+    destruct (find_rack (rb_racks rb) label) as [k|]; [|discriminate].
+    destruct (nth_error (rb_racks rb) k) as [r|] eqn:Hr; [|discriminate].
+    destruct (unpos d (rk_geom r) p) as [i|]; [|discriminate].
+    destruct (c && _); [discriminate|]. injection H as <-.
+    apply (with_rack_proj _ _ r); [exact Hr|reflexivity|reflexivity].
+  Qed.
+
+  Lemma dispense_all_proj c d label v ps : forall rb rb', dispense_all c d rb label ps v = Some rb' ->
+    map pr (rb_racks rb') = map pr (rb_racks rb).
+  Proof.
+    induction ps as [|p rest IH]; intros rb rb' H; cbn [dispense_all] in H.
+    - injection H as <-. reflexivity.
+    - destruct (do_dispense c d rb label p v) as [rb1|] eqn:E; [|discriminate].
+      rewrite (IH _ _ H). eapply do_dispense_proj. exact E.
+  Qed.
+
+  Lemma do_reagent_proj c d rb f rb' : do_reagent c d rb f = Some rb' ->
+    map pr (rb_racks rb') = map pr (rb_racks rb).
+  Proof.
+    unfold do_reagent. intro H.
+    destruct (find_rack (rb_racks rb) (r_src_label f)) as [k|]; [|discriminate].
+    destruct (nth_error (rb_racks rb) k) as [r|] eqn:Hr; [|discriminate].
+    destruct (range_index d (rk_geom r) _ _) as [i|]; [|discriminate].
+    destruct (c && _); [discriminate|].
+    rewrite (dispense_all_proj _ _ _ _ _ _ _ H).
+    apply (with_rack_proj _ _ r); [exact Hr|reflexivity|reflexivity].
+  Qed.
+
+  Lemma interp1_proj c d rb r rb' : interp1 c d rb r = Some rb' ->
+    map pr (rb_racks rb') = map pr (rb_racks rb).
+  Proof.
+    destruct r; cbn [interp1]; intro H; try (injection H as <-; reflexivity).
+    - eapply do_aspirate_proj. exact H.
+    - eapply do_dispense_proj. exact H.
+    - eapply do_reagent_proj. exact H.
+  Qed.
+
+  Lemma interp_proj c d recs : forall rb rb', interp c d rb recs = Some rb' ->
+    map pr (rb_racks rb') = map pr (rb_racks rb).
+  Proof.
+    induction recs as [|r rest IH]; intros rb rb' H; cbn [interp] in H.
+    - injection H as <-. reflexivity.
+    - destruct (interp1 c d rb r) as [rb1|] eqn:E; [|discriminate].
+      rewrite (IH _ _ H). eapply interp1_proj. exact E.
+  Qed.
+End Frames.
+
+Lemma interp_names c d recs rb rb' : interp c d rb recs = Some rb' ->
   map rk_name (rb_racks rb') = map rk_name (rb_racks rb).
-Proof.
-  unfold do_aspirate. intro H.
-  destruct (find_rack (rb_racks rb) label) as [k|]; [|discriminate].
-  destruct (nth_error (rb_racks rb) k) as [r|] eqn:Hr; [|discriminate].
-  destruct (unpos d (rk_geom r) p) as [i|]; [|discriminate].
-  destruct (c && _); [discriminate|]. injection H as <-.
-  apply (with_rack_names _ _ r); [exact Hr|reflexivity].
-Qed.
+Proof. apply interp_proj. intros r r' Hn _. exact Hn. Qed.
 
-Lemma do_dispense_names c d rb label p v rb' : do_dispense c d rb label p v = Some rb' ->
-  map rk_name (rb_racks rb') = map rk_name (rb_racks rb).
-Proof.
-  unfold do_dispense. intro H.
-  destruct (find_rack (rb_racks rb) label) as [k|]; [|discriminate].
-  destruct (nth_error (rb_racks rb) k) as [r|] eqn:Hr; [|discriminate].
-  destruct (unpos d (rk_geom r) p) as [i|]; [|discriminate].
-  destruct (c && _); [discriminate|]. injection H as <-.
-  apply (with_rack_names _ _ r); [exact Hr|reflexivity].
-Qed.
+Lemma interp_geoms c d recs rb rb' : interp c d rb recs = Some rb' ->
+  map rk_geom (rb_racks rb') = map rk_geom (rb_racks rb).
+Proof. apply interp_proj. intros r r' _ Hg. exact Hg. Qed.
 
-Lemma dispense_all_names c d label v ps : forall rb rb', dispense_all c d rb label ps v = Some rb' ->
-  map rk_name (rb_racks rb') = map rk_name (rb_racks rb).
+Lemma sim_geoms lws rs : sim_racks lws rs -> map rk_geom rs = map lw_geom lws.
 Proof.
-  induction ps as [|p rest IH]; intros rb rb' H; cbn [dispense_all] in H.
-  - injection H as <-. reflexivity.
-  - destruct (do_dispense c d rb label p v) as [rb1|] eqn:E; [|discriminate].
-    rewrite (IH _ _ H). eapply do_dispense_names. exact E.
-Qed.
-
-Lemma do_reagent_names c d rb f rb' : do_reagent c d rb f = Some rb' ->
-  map rk_name (rb_racks rb') = map rk_name (rb_racks rb).
-Proof.
-  unfold do_reagent. intro H.
-  destruct (find_rack (rb_racks rb) (r_src_label f)) as [k|]; [|discriminate].
-  destruct (nth_error (rb_racks rb) k) as [r|] eqn:Hr; [|discriminate].
-  destruct (range_index d (rk_geom r) _ _) as [i|]; [|discriminate].
-  destruct (c && _); [discriminate|].
-  rewrite (dispense_all_names _ _ _ _ _ _ _ H). apply (with_rack_names _ _ r); [exact Hr|reflexivity].
-Qed.
-
-Lemma interp1_names c d rb r rb' : interp1 c d rb r = Some rb' ->
-  map rk_name (rb_racks rb') = map rk_name (rb_racks rb).
-Proof.
-  destruct r; cbn [interp1]; intro H; try (injection H as <-; reflexivity).
-  - eapply do_aspirate_names. exact H.
-  - eapply do_dispense_names. exact H.
-  - eapply do_reagent_names. exact H.
-Qed.
-
-Lemma interp_names c d recs : forall rb rb', interp c d rb recs = Some rb' ->
-  map rk_name (rb_racks rb') = map rk_name (rb_racks rb).
-Proof.
-  induction recs as [|r rest IH]; intros rb rb' H; cbn [interp] in H.
-  - injection H as <-. reflexivity.
-  - destruct (interp1 c d rb r) as [rb1|] eqn:E; [|discriminate].
-    rewrite (IH _ _ H). eapply interp1_names. exact E.
+  intro H. symmetry. apply (Forall2_map_eq _ _ _ _ _ H). intros L r (_ & Hg & _). symmetry. exact Hg.
 Qed.
 
 (** the checked interpreter only refuses more *)
@@ -1652,4 +1672,562 @@ Proof.
   all: try (subst; exists nc; split; [reflexivity|intros _; exact Qc]).
   all: destruct Hr as (f & v & Hw & _); exists (nc ++ [RR f])%list;
     (split; [rewrite Hw, Wc, emit_emit; reflexivity|intro C; congruence]).
+Qed.
+
+Lemma sim_racks_upd_rel lws rs k L L' :
+  sim_racks (upd lws k L) rs -> (forall r, rack_sim L r -> rack_sim L' r) -> sim_racks (upd lws k L') rs.
+Proof.
+  intros H Hrel. destruct (Nat.lt_ge_cases k (length lws)) as [Hk|Hk].
+  - pose proof (nth_error_upd_same lws k L Hk) as HL.
+    destruct (Forall2_nth_error_l _ _ _ _ _ H HL) as (r & Hr & Hsim).
+    rewrite <- (upd_upd lws k L L'). eapply Forall2_upd_l; [exact H|exact Hr|]. apply Hrel. exact Hsim.
+  - rewrite upd_out in * by exact Hk. exact H.
+Qed.
+
+Lemma trough_src_index L v col : wf_geom (lw_geom L) -> g_vrows (lw_geom L) = Some v ->
+  (col < g_cols (lw_geom L))%nat -> lw_index L (well_id 0 col) = Some col.
+Proof.
+  intros Hg Ev Hc. destruct (n_row_ids_trough _ v Hg Ev) as [En Hv].
+  unfold lw_index. rewrite well_index_ok by (rewrite ?En; lia). rewrite Ev.
+  unfold flat_index. cbn [fst snd]. f_equal.
+Qed.
+
+Definition distribute_dev_ok (s : state) (ks : nat) : Prop :=
+  w_dev (st_wl s) = Evo \/
+  (w_dev (st_wl s) = Fluent /\
+   forall Ls, nth_error (st_lw s) ks = Some Ls -> g_vrows (lw_geom Ls) = Some 1%nat).
+
+Definition dst_positions_distinct (s : state) (kd : nat) (dwells : arr string) : Prop :=
+  forall Ld ps, nth_error (st_lw s) kd = Some Ld ->
+    positions_of (w_dev (st_wl s)) (lw_geom Ld) (flattenF dwells) = Ok ps -> NoDup ps.
+
+Lemma distribute_success s ks kd dwells a s' rb :
+  good_state s -> sim s rb -> distribute_dev_ok s ks -> dst_positions_distinct s kd dwells ->
+  distribute s ks kd dwells a = (s', None) ->
+  exists new rb', st_wl s' = emit (st_wl s) new /\
+    interp true (w_dev (st_wl s)) rb new = Some rb' /\ sim s' rb'.
+Proof.
+  intros Hgood Hsim Hdev Hnd H. pose proof Hgood as (HS & ND & Hd).
+  unfold distribute in H. cbv zeta in H.
+  destruct (nth_error (st_lw s) ks) as [Ls|] eqn:HLs; [|discriminate].
+  destruct (nth_error (st_lw s) kd) as [Ld|] eqn:HLd; [|discriminate].
+  destruct (g_vrows (lw_geom Ls)) as [vr|] eqn:Ev; [|discriminate].
+  destruct (rvol_x (d_volume a)) as [xv|] eqn:Ex; [|discriminate].
+  set (d := w_dev (st_wl s)) in *.
+  set (col := Z.to_nat (d_source_column a)) in *.
+  set (dw := flattenF dwells) in *.
+  assert (Hxq : exists v, xv = XQ v).
+  { destruct xv as [v| | |]; [eexists; reflexivity|discriminate|cbn in H; discriminate|].
+    exfalso. cbv beta iota in H.
+    destruct (existsb _ dw); [discriminate|].
+    destruct (positions_of d (lw_geom Ld) dw) as [ps|e0]; [|discriminate].
+    destruct (sort_Z (map Z.of_nat ps)) as [|p0 tl]; [discriminate|].
+    destruct (negb (col <? g_cols (lw_geom Ls))%nat); [discriminate|].
+    rewrite remove_bad_volume in H; [discriminate|].
+    exists (xmul_nat XNInf (length ps)). split; [left; reflexivity|].
+    unfold xmul_nat. destruct (length ps =? 0)%nat; reflexivity. }
+  destruct Hxq as [v ->]. cbv beta iota in H.
+  destruct (Qgtb v (w_max (st_wl s))) eqn:Egt; [discriminate|].
+  destruct (existsb _ dw); [discriminate|].
+  destruct (positions_of d (lw_geom Ld) dw) as [ps|e0] eqn:Eps; [|discriminate].
+  destruct (sort_Z (map Z.of_nat ps)) as [|p0 tl] eqn:Esort; [discriminate|].
+  destruct (negb (col <? g_cols (lw_geom Ls))%nat) eqn:Ecol; [discriminate|].
+  apply negb_false_iff in Ecol. apply Nat.ltb_lt in Ecol.
+  cbn [xmul_nat] in H.
+  set (q := Qred (v * inject_Z (Z.of_nat (length ps)))) in *.
+  destruct (remove Ls (A0 (well_id 0 col)) (A0 (XQ q)) (d_label a)) as [Ls' [e1|]] eqn:Erem; [discriminate|].
+  destruct (get_well_composition Ls' (well_id 0 col)) as [c|e1]; [|discriminate].
+  destruct (nth_error (st_lw (set_lw s ks Ls')) kd) as [Ld1|] eqn:HLd1; [|discriminate].
+  destruct (add Ld1 (A1 dw) (A0 (XQ v)) (d_label a) (Some (repeat (Some c) (length ps))))
+    as [Ld' [e2|]] eqn:Eadd; [discriminate|].
+  set (s2 := set_lw (set_lw s ks Ls') kd Ld') in *.
+  set (s2' := if (ks =? kd)%nat then condense_at s2 ks 2 (d_label a) else s2) in *.
+  assert (Hw2' : st_wl s2' = st_wl s) by (unfold s2'; destruct (ks =? kd)%nat; rewrite ?st_wl_condense; reflexivity).
+  destruct (comment (st_wl s2') (d_label a)) as [w1 [e3|]] eqn:Ec; [discriminate|].
+  set (plast := last (p0 :: tl) p0) in *.
+  set (excl := filter (fun z => negb (existsb (Z.eqb z) (p0 :: tl)))
+                 (map (fun i => (p0 + Z.of_nat i)%Z) (seq 0 (Z.to_nat (plast - p0 + 1))))) in *.
+  match type of H with context [reagent_distribution w1 ?x] => set (ra := x) in * end.
+  destruct (reagent_distribution w1 ra) as [w2 e4] eqn:Er. injection H as <- ->.
+  (* --- geometry of the source *)
+  pose proof (wf_nth _ _ _ HS HLs) as HWs. pose proof (wf_nth _ _ _ HS HLd) as HWd.
+  pose proof (wf_geom_nth _ _ _ HS HLs) as Hgs.
+  destruct (n_row_ids_trough _ vr Hgs Ev) as [En Hvr].
+  assert (Hdv : d = Evo \/ (d = Fluent /\ vr = 1%nat)).
+  { destruct Hdev as [E|[E Hone]]; [left; exact E|right]. split; [exact E|].
+    specialize (Hone Ls HLs). congruence. }
+  pose proof (Hnd Ld ps HLd Eps) as NDps.
+  (* --- the source removal *)
+  destruct (remove_accepted _ _ _ _ _ Erem) as (L1s & _ & _ & Hruns & HLs').
+  cbv zeta in Hruns. cbn [flattenF broadcast length repeat zip] in Hruns.
+  apply rem_run_loop in Hruns. rewrite remove_loop_cons in Hruns.
+  rewrite (trough_src_index Ls vr col Hgs Ev Ecol) in Hruns.
+  destruct (Qltb (Qred (vol_at Ls col - q)) (lw_min Ls)) eqn:Echk; [discriminate|].
+  cbn [remove_loop] in Hruns. injection Hruns as HL1s.
+  (* --- the destination labware after the removal *)
+  assert (HWs' : wf_labware Ls') by (apply (remove_wf' _ _ _ _ _ _ Erem); exact HWs).
+  assert (HS1 : wf_state (set_lw s ks Ls')) by (apply wf_set_lw; assumption).
+  pose proof (wf_nth _ _ _ HS1 HLd1) as HWd1.
+  assert (Hlims1 : same_lims Ld Ld1).
+  { cbn [st_lw set_lw] in HLd1. destruct (Nat.eq_dec ks kd) as [<-|Hne].
+    - rewrite nth_error_upd_same in HLd1 by (eapply nth_error_lt; exact HLs). injection HLd1 as <-.
+      rewrite HLs in HLd. injection HLd as <-. apply (remove_any _ _ _ _ _ _ Erem).
+    - rewrite nth_error_upd_other in HLd1 by exact Hne. rewrite HLd in HLd1. injection HLd1 as <-.
+      apply same_lims_refl. }
+  destruct Hlims1 as (N1 & G1 & _).
+  pose proof (wf_shape_shape0 _ (proj1 HWd1)) as HS0d1.
+  (* --- the tracked additions as a ledger *)
+  destruct (add_accepted _ _ _ _ _ _ Eadd) as (items & L1d & Hmap & _ & Hoka & Hrund & HLd').
+  cbn [flattenF broadcast] in Hmap. fold dw in Hmap.
+  destruct (add_run_ledger _ _ _ _ Hrund eq_refl HS0d1) as (evs & Hev & HJ).
+  rewrite Hmap in Hev. rewrite <- G1 in Eps.
+  destruct (events_of_positions d Ld1 v HS0d1 Hd dw ps evs Eps Hev) as [-> HFps].
+  pose proof (add_wf' _ _ _ _ _ _ _ Eadd HWd1) as HWd'.
+  destruct (add_any _ _ _ _ _ _ _ Eadd) as [Hlimsd _].
+  (* --- the record *)
+  destruct (comment_spec _ _ _ _ Ec) as (ls & Hw1 & _). rewrite Hw2' in Hw1.
+  pose proof (reagent_distribution_spec _ _ _ _ Er) as Hspec. cbv beta iota in Hspec.
+  destruct Hspec as (f & v' & Hwr & F1 & F2 & F3 & F4 & F5 & F6 & F7 & F8 & F9 & F10 & F11).
+  unfold ra in F1, F2, F3, F4, F5, F6, F7, F8.
+  cbn [rd_src_label rd_dst_label rd_src_start rd_src_end rd_dst_start rd_dst_end rd_exclude rd_volume] in *.
+  injection F1 as F1. injection F2 as F2. injection F3 as F3. injection F4 as F4.
+  injection F5 as F5. injection F6 as F6.
+  rewrite En in F3, F4.
+  assert (F3' : Z.to_nat (r_src_start f) = (1 + vr * col)%nat) by (rewrite <- F3; exact (Nat2Z.id (1 + vr * col))).
+  assert (F4' : Z.to_nat (r_src_end f) = (1 + vr * col + vr - 1)%nat) by (rewrite <- F4; exact (Nat2Z.id (1 + vr * col + vr - 1))).
+  assert (Hv' : v' = v).
+  { destruct (d_volume a) as [z|x|]; cbn [rvol_pvol rvol_x] in *; congruence. }
+  rewrite Hv' in F8, F9, F10, F11. clear Hv' v'.
+  (* --- destination positions as the interpreter computes them *)
+  pose proof (dsts_perm ps p0 tl NDps Esort) as Hperm. cbv zeta in Hperm. fold plast excl in Hperm.
+  match type of Hperm with Permutation ?x _ => set (dsts := x) in * end.
+  pose proof (Permutation_length Hperm) as Hlen.
+  (* --- the robot: source *)
+  destruct (find_rack_sim _ _ _ _ Hsim ND HLs) as (r & Hf & Hr & Hrs).
+  pose proof Hrs as (R1 & R2 & R3 & R4 & R5).
+  set (total := v * inject_Z (Z.of_nat (length dsts))).
+  set (rb1 := with_rack rb ks (set_rack_vol r col (nth col (rk_vols r) 0 - total)) (Some (fractions_at r col))).
+  assert (Hqt : q == total) by (unfold q, total; rewrite Qred_correct, Hlen; reflexivity).
+  assert (Hsim1 : sim_racks (upd (st_lw s) ks Ls') (rb_racks rb1)).
+  { apply (sim_racks_upd_obs _ _ _ (rem_one Ls col q)); [|rewrite HLs', <- HL1s; apply log_obs].
+    unfold rb1, with_rack. cbn [rb_racks]. apply Forall2_upd; [exact Hsim|].
+    apply rack_sim_rem_one'; assumption. }
+  assert (ND1 : NoDup (map lw_name (upd (st_lw s) ks Ls'))).
+  { rewrite (names_upd _ _ Ls); [exact ND|exact HLs|apply (remove_any _ _ _ _ _ _ Erem)]. }
+  (* --- the robot: destinations *)
+  set (u := uidx d (lw_geom Ld1)) in *.
+  assert (HFd : Forall2 (fun p i => unpos d (lw_geom Ld1) p = Some i /\ (i < length (lw_vols Ld1))%nat)
+                  dsts (map u dsts)) by (eapply Forall2_map_perm; eassumption).
+  assert (Hdelta : forall j, delta (evs_of v (map u dsts)) j == delta (evs_of v (map u ps)) j).
+  { intro j. apply delta_perm. unfold evs_of. apply Permutation_map. apply Permutation_map. exact Hperm. }
+  assert (Hbound : forall j, vol_at Ld1 j + delta (evs_of v (map u dsts)) j <= lw_max Ld1).
+  { intro j. rewrite Hdelta, <- HJ. destruct Hlimsd as (_ & _ & _ & M4 & _). rewrite <- M4.
+    pose proof (vol_at_range Ld' j (proj2 HWd')) as [_ B].
+    assert (E : vol_at Ld' j = vol_at L1d j) by (rewrite HLd'; reflexivity). rewrite <- E. exact B. }
+  cbn [st_lw set_lw] in HLd1.
+  destruct (dispense_all_idx true d kd v F10 dsts (map u dsts) Ld1 _ rb1 HFd Hsim1 ND1 HLd1 Hbound)
+    as (rb' & L' & Hdall & Hsim' & Hfr' & Hvol').
+  assert (Hsim2 : sim_racks (st_lw s2) (rb_racks rb')).
+  { unfold s2. cbn [st_lw set_lw]. apply (sim_racks_upd_rel _ _ _ L'); [exact Hsim'|].
+    intros r0 Hr0. apply (rack_sim_vols_eq L'); [exact Hr0| |].
+    - eapply same_lims_trans; [apply same_lims_sym, same_frame_lims; exact Hfr'|exact Hlimsd].
+    - intro j. rewrite Hvol', Hdelta, HLd'. apply HJ. }
+  (* --- assemble *)
+  exists (map RC ls ++ [RR f])%list, rb'. cbn [st_wl set_wl].
+  split; [rewrite Hwr, Hw1, emit_emit; reflexivity|]. split.
+  - rewrite interp_app, interp_RC. cbn [interp interp1].
+    assert (Hdo : do_reagent true d rb f = Some rb'); [|rewrite Hdo; reflexivity].
+    unfold do_reagent. rewrite <- F1, Hf, Hr, F3', F4', R2.
+    rewrite (range_index_src d (lw_geom Ls) vr col Hgs Ev Ecol Hdv).
+    rewrite <- F5, <- F6, F7, F9. fold dsts. fold total.
+    assert (Echk' : Qltb (nth col (rk_vols r) 0 - total) (rk_min r) = false).
+    { rewrite <- Echk. apply Qltb_compat; [|rewrite R3; reflexivity].
+      rewrite Qred_correct, Hqt. unfold vol_at. rewrite (Forall2_Qeq_nth _ _ col R5). reflexivity. }
+    rewrite Echk'. cbn [andb]. fold rb1. rewrite <- F2, <- N1. exact Hdall.
+  - unfold sim. cbn [st_lw set_wl]. unfold s2'. destruct (ks =? kd)%nat; [apply sim_condense_at|]; exact Hsim2.
+Qed.
+
+Theorem distribute_replay s ks kd dwells a s' e rb :
+  good_state s -> sim s rb -> distribute_dev_ok s ks -> dst_positions_distinct s kd dwells ->
+  distribute s ks kd dwells a = (s', e) ->
+  exists new rb', st_wl s' = emit (st_wl s) new /\
+    interp true (w_dev (st_wl s)) rb new = Some rb' /\
+    (e = None -> sim s' rb') /\ (e <> None -> sim s rb' /\ forallb quiet new = true).
+Proof.
+  intros Hgood Hsim Hdev Hnd H. destruct e as [e|].
+  - destruct (distribute_quiet_fail _ _ _ _ _ _ _ H) as (new & Hw & Hq).
+    specialize (Hq ltac:(discriminate)).
+    destruct (interp_quiet true (w_dev (st_wl s)) new rb Hq) as (rb' & A & B).
+    exists new, rb'. split; [exact Hw|]. split; [exact A|]. split; [discriminate|].
+    intros _. split; [|exact Hq]. unfold sim. rewrite B. exact Hsim.
+  - destruct (distribute_success _ _ _ _ _ _ _ Hgood Hsim Hdev Hnd H) as (new & rb' & A & B & C).
+    exists new, rb'. split; [exact A|]. split; [exact B|]. split; [intros _; exact C|congruence].
+Qed.
+
+(* ------------------------------------------------------------------ programs *)
+
+(** the worklist operations of a program: the four pipetting calls and the record-only calls *)
+Definition wl_op (o : op) : bool :=
+  match o with
+  | OAspirate _ _ _ _ _ | ODispense _ _ _ _ _ _ | OTransfer _ _ _ _ _ _ _ _ _ | ODistribute _ _ _ _
+  | OComment _ | OWash _ | ODecon | OFlush | OCommit | OSetDiti _ => true
+  | _ => false
+  end.
+
+(** side conditions of [distribute]: EVO numbering of the source range (or a one-row trough on Fluent),
+    destination positions pairwise distinct; they only depend on device and geometry *)
+Definition op_ok (s : state) (o : op) : Prop :=
+  match o with
+  | ODistribute ks kd dwells _ => distribute_dev_ok s ks /\ dst_positions_distinct s kd dwells
+  | _ => True
+  end.
+
+Lemma on_wl_replay s f s' e rb :
+  (forall w w' e, f w = (w', e) -> exists new, w' = emit w new /\ forallb quiet new = true) ->
+  sim s rb -> on_wl s f = (s', e) ->
+  exists new rb', st_wl s' = emit (st_wl s) new /\
+    interp true (w_dev (st_wl s)) rb new = Some rb' /\ sim s' rb'.
+Proof.
+  intros Hf Hsim H. unfold on_wl in H. destruct (f (st_wl s)) as [w e0] eqn:E. injection H as <- <-.
+  destruct (Hf _ _ _ E) as (new & Hw & Hq).
+  destruct (quiet_replay true s w new rb Hsim Hw Hq) as (rb' & A & B).
+  exists new, rb'. split; [exact Hw|]. split; [exact A|exact B].
+Qed.
+
+Theorem step_replay s o s' e rb :
+  good_state s -> sim s rb -> wl_op o = true -> op_ok s o -> step s o = (s', e) ->
+  exists new rb', st_wl s' = emit (st_wl s) new /\
+    interp true (w_dev (st_wl s)) rb new = Some rb' /\ (e = None -> sim s' rb').
+Proof.
+  intros Hgood Hsim Hop Hok H.
+  destruct o as [k wells vols label comps|k wells vols label|k n label|k wells vols label kw
+                |k wells vols label comps kw|ks swells kd dwells vols label ws pb kw|ks kd dwells a
+                |c|sch| | | |i|a|a|a|k a label|k a label comps|a]; try discriminate; cbn [step] in H.
+  - destruct (aspirate_replay _ _ _ _ _ _ _ _ _ Hgood Hsim H) as (new & rb' & A & B & C & _).
+    exists new, rb'. split; [exact A|]. split; [exact B|exact C].
+  - destruct (dispense_replay _ _ _ _ _ _ _ _ _ _ Hgood Hsim H) as (new & rb' & A & B & C & _).
+    exists new, rb'. split; [exact A|]. split; [exact B|exact C].
+  - eapply transfer_replay; eassumption.
+  - destruct Hok as [Hdev Hnd].
+    destruct (distribute_replay _ _ _ _ _ _ _ _ Hgood Hsim Hdev Hnd H) as (new & rb' & A & B & C & _).
+    exists new, rb'. split; [exact A|]. split; [exact B|exact C].
+  - destruct (on_wl_replay s _ s' e rb (fun w w' e0 => comment_quiet w c w' e0) Hsim H) as (new & rb' & A & B & C).
+    exists new, rb'. split; [exact A|]. split; [exact B|intros _; exact C].
+  - destruct (on_wl_replay s _ s' e rb (fun w w' e0 => wash_spec w sch w' e0) Hsim H) as (new & rb' & A & B & C).
+    exists new, rb'. split; [exact A|]. split; [exact B|intros _; exact C].
+  - destruct (on_wl_replay s _ s' e rb decontaminate_spec Hsim H) as (new & rb' & A & B & C).
+    exists new, rb'. split; [exact A|]. split; [exact B|intros _; exact C].
+  - destruct (on_wl_replay s _ s' e rb flush_spec Hsim H) as (new & rb' & A & B & C).
+    exists new, rb'. split; [exact A|]. split; [exact B|intros _; exact C].
+  - destruct (on_wl_replay s _ s' e rb commit_spec Hsim H) as (new & rb' & A & B & C).
+    exists new, rb'. split; [exact A|]. split; [exact B|intros _; exact C].
+  - destruct (on_wl_replay s _ s' e rb (fun w w' e0 => set_diti_spec w i w' e0) Hsim H) as (new & rb' & A & B & C).
+    exists new, rb'. split; [exact A|]. split; [exact B|intros _; exact C].
+Qed.
+
+(** [op_ok] only looks at the device and the geometries *)
+Lemma op_ok_transport s0 s o : w_dev (st_wl s) = w_dev (st_wl s0) ->
+  map lw_geom (st_lw s) = map lw_geom (st_lw s0) -> op_ok s0 o -> op_ok s o.
+Proof.
+  intros Hd Hg. destruct o; cbn [op_ok]; try (intros; exact I).
+  assert (Hnth : forall k L, nth_error (st_lw s) k = Some L ->
+            exists L0, nth_error (st_lw s0) k = Some L0 /\ lw_geom L0 = lw_geom L).
+  { intros k L HL. pose proof (map_nth_error lw_geom _ _ HL) as H1. rewrite Hg in H1.
+    destruct (nth_error (st_lw s0) k) as [L0|] eqn:E.
+    - rewrite (map_nth_error lw_geom _ _ E) in H1. injection H1 as H1. exists L0. split; [reflexivity|exact H1].
+    - apply nth_error_None in E. assert (Hlt : (k < length (map lw_geom (st_lw s0)))%nat)
+        by (apply nth_error_Some; congruence). rewrite map_length in Hlt. lia. }
+  intros [Hdev Hnd]. split.
+  - destruct Hdev as [E|[E Hone]]; [left; congruence|right]. split; [congruence|].
+    intros Ls HLs. destruct (Hnth _ _ HLs) as (L0 & HL0 & <-). apply Hone. exact HL0.
+  - intros Ld ps HLd Hps. destruct (Hnth _ _ HLd) as (L0 & HL0 & Hg0).
+    apply (Hnd L0 ps HL0). rewrite <- Hd, Hg0. exact Hps.
+Qed.
+
+Lemma run_cons s o r : run s (o :: r) =
+  (fst (run (fst (step s o)) r), snd (step s o) :: snd (run (fst (step s o)) r)).
+Proof.
+  cbn [run]. destruct (step s o) as [s1 e]. cbn [fst snd]. destruct (run s1 r) as [s2 es]. reflexivity.
+Qed.
+
+Lemma run_app a : forall s b, run s (a ++ b) =
+  (fst (run (fst (run s a)) b), (snd (run s a) ++ snd (run (fst (run s a)) b))%list).
+Proof.
+  induction a as [|o r IH]; intros s b.
+  - cbn [app run fst snd]. destruct (run s b). reflexivity.
+  - rewrite <- app_comm_cons, !run_cons, IH. cbn [fst snd]. reflexivity.
+Qed.
+
+Lemma step_wf' s o s' e : step s o = (s', e) -> wf_state s -> wf_state s'.
+Proof. intros H HS. pose proof (step_wf s o HS) as H1. rewrite H in H1. exact H1. Qed.
+
+(** all calls of the program succeed: the accumulated records replay to the tracked state *)
+Theorem run_replay s0 ops : forall s rb,
+  good_state s -> sim s rb -> w_dev (st_wl s) = w_dev (st_wl s0) ->
+  map lw_geom (st_lw s) = map lw_geom (st_lw s0) ->
+  forallb wl_op ops = true -> Forall (op_ok s0) ops ->
+  Forall (fun e => e = None) (snd (run s ops)) ->
+  exists new rb', st_wl (fst (run s ops)) = emit (st_wl s) new /\
+    interp true (w_dev (st_wl s)) rb new = Some rb' /\ sim (fst (run s ops)) rb' /\
+    good_state (fst (run s ops)) /\ w_dev (st_wl (fst (run s ops))) = w_dev (st_wl s0) /\
+    map lw_geom (st_lw (fst (run s ops))) = map lw_geom (st_lw s0).
+Proof.
+  induction ops as [|o r IH]; intros s rb Hgood Hsim Hd Hg Hops Hok Hall.
+  - exists [], rb. cbn [run fst]. rewrite emit_nil. repeat (split; [assumption || reflexivity|]). assumption.
+  - rewrite run_cons in *. cbn [fst snd] in *. cbn [forallb] in Hops. apply andb_true_iff in Hops.
+    destruct Hops as [Ho Hr]. inversion Hok as [|o' r' Hoko Hokr]; subst.
+    inversion Hall as [|e' es' He Hes]; subst.
+    destruct (step s o) as [s1 e1] eqn:Es. cbn [fst snd] in *. subst e1.
+    destruct (step_replay _ _ _ _ _ Hgood Hsim Ho (op_ok_transport _ _ _ Hd Hg Hoko) Es)
+      as (n1 & rb1 & W1 & I1 & S1).
+    pose proof (S1 eq_refl) as Hs1.
+    pose proof (step_wf' _ _ _ _ Es (proj1 Hgood)) as HS1.
+    destruct (good_next _ _ _ _ _ _ Hgood Hsim W1 I1 Hs1 HS1) as [Hgood1 Hdev1].
+    assert (Hg1 : map lw_geom (st_lw s1) = map lw_geom (st_lw s0)).
+    { rewrite <- (sim_geoms _ _ Hs1), (interp_geoms _ _ _ _ _ I1), (sim_geoms _ _ Hsim). exact Hg. }
+    assert (Hd1 : w_dev (st_wl s1) = w_dev (st_wl s0)) by congruence.
+    destruct (IH s1 rb1 Hgood1 Hs1 Hd1 Hg1 Hr Hokr Hes) as (n2 & rb2 & W2 & I2 & S2 & G2 & D2 & M2).
+    rewrite Hdev1 in I2.
+    exists (n1 ++ n2)%list, rb2. split; [rewrite W2, W1, emit_emit; reflexivity|].
+    split; [rewrite interp_app, I1; exact I2|]. repeat (split; [assumption|]). assumption.
+Qed.
+
+Theorem run_refines s0 ops :
+  good_state s0 -> w_recs (st_wl s0) = [] ->
+  forallb wl_op ops = true -> Forall (op_ok s0) ops ->
+  Forall (fun e => e = None) (snd (run s0 ops)) ->
+  exists rb, interp false (w_dev (st_wl s0)) (robot_of (st_lw s0)) (w_recs (st_wl (fst (run s0 ops)))) = Some rb /\
+             sim (fst (run s0 ops)) rb.
+Proof.
+  intros Hgood Hrecs Hops Hok Hall.
+  destruct (run_replay s0 ops s0 _ Hgood (sim_robot_of s0) eq_refl eq_refl Hops Hok Hall)
+    as (new & rb & W & I & S & _).
+  exists rb. rewrite W. cbn [w_recs emit]. rewrite Hrecs. cbn [app].
+  split; [apply interp_unchecked; exact I|exact S].
+Qed.
+
+(** C03_prefix_safe: all calls but the last succeed, the last one is arbitrary *)
+Theorem prefix_safe s0 ops0 o :
+  good_state s0 -> w_recs (st_wl s0) = [] ->
+  forallb wl_op (ops0 ++ [o]) = true -> Forall (op_ok s0) (ops0 ++ [o]) ->
+  Forall (fun e => e = None) (snd (run s0 ops0)) ->
+  exists rb, interp true (w_dev (st_wl s0)) (robot_of (st_lw s0))
+               (w_recs (st_wl (fst (run s0 (ops0 ++ [o]))))) = Some rb.
+Proof.
+  intros Hgood Hrecs Hops Hok Hall.
+  rewrite forallb_app in Hops. apply andb_true_iff in Hops. destruct Hops as [Hops0 Hopo].
+  cbn [forallb] in Hopo. rewrite andb_true_r in Hopo.
+  apply Forall_app in Hok. destruct Hok as [Hok0 Hoko]. inversion Hoko as [|o' r' Hoko' _]; subst.
+  destruct (run_replay s0 ops0 s0 _ Hgood (sim_robot_of s0) eq_refl eq_refl Hops0 Hok0 Hall)
+    as (n1 & rb1 & W1 & I1 & S1 & G1 & D1 & M1).
+  rewrite run_app. cbn [fst]. set (s1 := fst (run s0 ops0)) in *.
+  cbn [run]. destruct (step s1 o) as [s2 e2] eqn:Es. cbn [fst].
+  destruct (step_replay _ _ _ _ _ G1 S1 Hopo (op_ok_transport _ _ _ D1 M1 Hoko') Es)
+    as (n2 & rb2 & W2 & I2 & _).
+  exists rb2. rewrite W2, W1, emit_emit. cbn [w_recs emit]. rewrite Hrecs. cbn [app].
+  rewrite interp_app, I1. rewrite D1 in I2. exact I2.
+Qed.
+
+(* ------------------------------------------------------------------ C03: no step above the worklist's max_volume *)
+
+Definition no_ad (r : srec) : bool := match r with RA _ | RD _ => false | _ => true end.
+
+Definition bounded_rec (m : Q) (r : srec) : Prop :=
+  match r with RA f | RD f => 0 <= ad_volume f /\ ad_volume f <= m | _ => True end.
+
+(** [w'] is [w] with more records, every new A / D record within [0, w_max w] *)
+Definition emits_bounded (w w' : wstate) : Prop :=
+  exists new, w' = emit w new /\ Forall (bounded_rec (w_max w)) new.
+
+Lemma emits_bounded_refl w : emits_bounded w w.
+Proof. exists []. rewrite emit_nil. split; [reflexivity|constructor]. Qed.
+
+Lemma emits_bounded_trans w1 w2 w3 : emits_bounded w1 w2 -> emits_bounded w2 w3 -> emits_bounded w1 w3.
+Proof.
+  intros (n1 & -> & B1) (n2 & -> & B2). exists (n1 ++ n2)%list. rewrite emit_emit. split; [reflexivity|].
+  apply Forall_app. split; [exact B1|exact B2].
+Qed.
+
+Lemma no_ad_bounded m new : forallb no_ad new = true -> Forall (bounded_rec m) new.
+Proof.
+  intro H. apply Forall_forall. intros r Hin. rewrite forallb_forall in H. specialize (H r Hin).
+  destruct r; try exact I; discriminate.
+Qed.
+
+Lemma quiet_no_ad new : forallb quiet new = true -> forallb no_ad new = true.
+Proof.
+  intro H. apply forallb_forall. intros r Hin. rewrite forallb_forall in H. specialize (H r Hin).
+  destruct r; try reflexivity; discriminate.
+Qed.
+
+Lemma emits_no_ad w w' new : w' = emit w new -> forallb no_ad new = true -> emits_bounded w w'.
+Proof. intros -> H. exists new. split; [reflexivity|apply no_ad_bounded; exact H]. Qed.
+
+Lemma emits_quiet w w' : (exists new, w' = emit w new /\ forallb quiet new = true) -> emits_bounded w w'.
+Proof. intros (new & Hw & Hq). eapply emits_no_ad; [exact Hw|apply quiet_no_ad; exact Hq]. Qed.
+
+(** C03_steps_bounded, one record *)
+Lemma aspirate_well_bounded w a w' e : aspirate_well w a = (w', e) ->
+  match e with
+  | None => exists f, w' = emit w [RA f] /\ 0 <= ad_volume f /\ ad_volume f <= w_max w
+  | Some _ => w' = w
+  end.
+Proof.
+  unfold aspirate_well. destruct (prepare_ad a (Some (w_max w))) as [f|e0] eqn:E; intro H; injection H as <- <-.
+  - exists f. destruct (prepare_ad_fields _ _ _ E) as (_ & _ & _ & _ & H1 & H2). repeat split; assumption.
+  - reflexivity.
+Qed.
+
+Lemma dispense_well_bounded w a w' e : dispense_well w a = (w', e) ->
+  match e with
+  | None => exists f, w' = emit w [RD f] /\ 0 <= ad_volume f /\ ad_volume f <= w_max w
+  | Some _ => w' = w
+  end.
+Proof.
+  unfold dispense_well. destruct (prepare_ad a (Some (w_max w))) as [f|e0] eqn:E; intro H; injection H as <- <-.
+  - exists f. destruct (prepare_ad_fields _ _ _ E) as (_ & _ & _ & _ & H1 & H2). repeat split; assumption.
+  - reflexivity.
+Qed.
+
+Lemma aspirate_well_emits w a w' e : aspirate_well w a = (w', e) -> emits_bounded w w'.
+Proof.
+  intro H. apply aspirate_well_bounded in H. destruct e as [e|].
+  - subst. apply emits_bounded_refl.
+  - destruct H as (f & -> & H1 & H2). exists [RA f]. split; [reflexivity|]. constructor; [split; assumption|constructor].
+Qed.
+
+Lemma dispense_well_emits w a w' e : dispense_well w a = (w', e) -> emits_bounded w w'.
+Proof.
+  intro H. apply dispense_well_bounded in H. destruct e as [e|].
+  - subst. apply emits_bounded_refl.
+  - destruct H as (f & -> & H1 & H2). exists [RD f]. split; [reflexivity|]. constructor; [split; assumption|constructor].
+Qed.
+
+(** C03_no_split_refused: a volume above the worklist's max_volume is refused with InvalidOperationError
+    (when every other argument is acceptable) and nothing is appended *)
+Lemma aspirate_well_refused w a v f0 : x_volume a = PV (XQ v) -> w_max w < v ->
+  prepare_ad a None = Ok f0 -> aspirate_well w a = (w, Some EInvalidOp).
+Proof.
+  intros Hv Hlt H0. unfold aspirate_well, prepare_ad in *.
+  destruct (text_ok true (x_rack_label a)) as [label|]; [|discriminate].
+  destruct (check_position (x_position a)) as [pos|e2]; [|discriminate].
+  rewrite Hv in *. unfold check_volume in *.
+  destruct (Qltb v 0); [discriminate|]. destruct (Qgtb v max_tecan_volume); [discriminate|].
+  rewrite (Qgtb_true_intro _ _ Hlt). reflexivity.
+Qed.
+
+Lemma dispense_well_refused w a v f0 : x_volume a = PV (XQ v) -> w_max w < v ->
+  prepare_ad a None = Ok f0 -> dispense_well w a = (w, Some EInvalidOp).
+Proof.
+  intros Hv Hlt H0. unfold dispense_well, prepare_ad in *.
+  destruct (text_ok true (x_rack_label a)) as [label|]; [|discriminate].
+  destruct (check_position (x_position a)) as [pos|e2]; [|discriminate].
+  rewrite Hv in *. unfold check_volume in *.
+  destruct (Qltb v 0); [discriminate|]. destruct (Qgtb v max_tecan_volume); [discriminate|].
+  rewrite (Qgtb_true_intro _ _ Hlt). reflexivity.
+Qed.
+
+(** whatever the other arguments are: above max_volume nothing is appended *)
+Lemma aspirate_well_over_nothing w a v : x_volume a = PV (XQ v) -> w_max w < v ->
+  exists e, aspirate_well w a = (w, Some e).
+Proof.
+  intros Hv Hlt. destruct (aspirate_well w a) as [w' [e|]] eqn:E.
+  - pose proof (aspirate_well_bounded _ _ _ _ E) as H. cbv beta iota in H. subst w'. exists e. reflexivity.
+  - exfalso. unfold aspirate_well in E. destruct (prepare_ad a (Some (w_max w))) as [f|e0] eqn:Ep; [|discriminate].
+    destruct (prepare_ad_fields _ _ _ Ep) as (_ & _ & _ & F & _ & Hle). rewrite Hv in F. injection F as F.
+    rewrite <- F in Hle. lra.
+Qed.
+
+Lemma emit_wells_emits asp kw L : forall items w w' e,
+  emit_wells asp w L items kw = (w', e) -> emits_bounded w w'.
+Proof.
+  induction items as [|[well x] rest IH]; intros w w' e H; cbn [emit_wells] in H.
+  - injection H as <- <-. apply emits_bounded_refl.
+  - destruct (xpos x); [|eapply IH; exact H].
+    destruct (device_position (w_dev w) (lw_geom L) well) as [pos|e0]; [|injection H as <- <-; apply emits_bounded_refl].
+    destruct ((if asp then aspirate_well else dispense_well) w (ad_of_kw (lw_name L) pos (xq x) kw))
+      as [w1 e1] eqn:E1.
+    assert (H1 : emits_bounded w w1)
+      by (destruct asp; [eapply aspirate_well_emits|eapply dispense_well_emits]; exact E1).
+    destruct e1 as [e1|]; [injection H as <- <-; exact H1|].
+    eapply emits_bounded_trans; [exact H1|eapply IH; exact H].
+Qed.
+
+Lemma aspirate_emits s k wells vols label kw s' e :
+  aspirate s k wells vols label kw = (s', e) -> emits_bounded (st_wl s) (st_wl s').
+Proof.
+  unfold aspirate, wells_vols. cbv zeta. intro H.
+  destruct (nth_error (st_lw s) k) as [L|]; [|injection H as <- <-; apply emits_bounded_refl].
+  cbv beta iota in H. destruct (remove L _ _ label) as [L' [e1|]]; [injection H as <- <-; apply emits_bounded_refl|].
+  cbn [st_wl set_lw] in H. destruct (comment (st_wl s) label) as [w e2] eqn:Ec.
+  pose proof (emits_quiet _ _ (comment_quiet _ _ _ _ Ec)) as H1.
+  destruct e2 as [e2|]; [injection H as <- <-; exact H1|].
+  destruct (emit_wells true w L' _ kw) as [w' e3] eqn:Ee. injection H as <- <-. cbn [st_wl set_wl].
+  eapply emits_bounded_trans; [exact H1|eapply emit_wells_emits; exact Ee].
+Qed.
+
+Lemma dispense_emits s k wells vols label comps kw s' e :
+  dispense s k wells vols label comps kw = (s', e) -> emits_bounded (st_wl s) (st_wl s').
+Proof.
+  unfold dispense, wells_vols. cbv zeta. intro H.
+  destruct (nth_error (st_lw s) k) as [L|]; [|injection H as <- <-; apply emits_bounded_refl].
+  cbv beta iota in H. destruct (add L _ _ label comps) as [L' [e1|]]; [injection H as <- <-; apply emits_bounded_refl|].
+  cbn [st_wl set_lw] in H. destruct (comment (st_wl s) label) as [w e2] eqn:Ec.
+  pose proof (emits_quiet _ _ (comment_quiet _ _ _ _ Ec)) as H1.
+  destruct e2 as [e2|]; [injection H as <- <-; exact H1|].
+  destruct (emit_wells false w L' _ kw) as [w' e3] eqn:Ee. injection H as <- <-. cbn [st_wl set_wl].
+  eapply emits_bounded_trans; [exact H1|eapply emit_wells_emits; exact Ee].
+Qed.
+
+Lemma exec_step_emits s ks kd sw dw v ws kw s' e :
+  exec_step s ks kd sw dw v ws kw = (s', e) -> emits_bounded (st_wl s) (st_wl s').
+Proof.
+  unfold exec_step. intro H.
+  destruct (aspirate s ks (A0 sw) (A0 (XQ v)) None kw) as [s1 e1] eqn:Ea.
+  pose proof (aspirate_emits _ _ _ _ _ _ _ _ Ea) as H1.
+  destruct e1 as [e1|]; [injection H as <- <-; exact H1|].
+  destruct (nth_error (st_lw s1) ks) as [Ls|]; [|injection H as <- <-; exact H1].
+  destruct (get_well_composition Ls sw) as [c|e2]; [|injection H as <- <-; exact H1].
+  destruct (dispense s1 kd (A0 dw) (A0 (XQ v)) None (Some [Some c]) kw) as [s2 e3] eqn:Ed.
+  pose proof (emits_bounded_trans _ _ _ H1 (dispense_emits _ _ _ _ _ _ _ _ _ Ed)) as H2.
+  destruct e3 as [e3|]; [injection H as <- <-; exact H2|].
+  destruct (tip_action (st_wl s2) ws) as [w e4] eqn:Et. injection H as <- <-. cbn [st_wl set_wl].
+  eapply emits_bounded_trans; [exact H2|]. apply emits_quiet. eapply tip_action_spec. exact Et.
+Qed.
+
+Lemma exec_emits ks kd ws kw acts : forall s s' e,
+  exec s ks kd acts ws kw = (s', e) -> emits_bounded (st_wl s) (st_wl s').
+Proof.
+  induction acts as [|a rest IH]; intros s s' e H; cbn [exec] in H.
+  - injection H as <- <-. apply emits_bounded_refl.
+  - destruct a as [sw dw v|].
+    + destruct (exec_step s ks kd sw dw v ws kw) as [s1 e1] eqn:Es.
+      pose proof (exec_step_emits _ _ _ _ _ _ _ _ _ _ Es) as H1.
+      destruct e1 as [e1|]; [injection H as <- <-; exact H1|].
+      eapply emits_bounded_trans; [exact H1|eapply IH; exact H].
+    + apply IH in H. cbn [st_wl set_wl commit fst] in H.
+      eapply emits_bounded_trans; [|exact H]. exists [RB]. split; [reflexivity|]. constructor; [exact I|constructor].
+Qed.
+
+Lemma transfer_emits s ks swells kd dwells vols label ws pb kw s' e :
+  transfer s ks swells kd dwells vols label ws pb kw = (s', e) -> emits_bounded (st_wl s) (st_wl s').
+Proof.
+  unfold transfer. cbv zeta. intro H.
+  assert (Hstop : forall e0, (s, Some e0) = (s', e) -> emits_bounded (st_wl s) (st_wl s'))
+    by (intros e0 E; injection E as <- <-; apply emits_bounded_refl).
+  destruct (w_dev (st_wl s)); try apply (Hstop _ H).
+  all: destruct (nth_error (st_lw s) ks) as [Ls|]; [|apply (Hstop _ H)];
+    destruct (nth_error (st_lw s) kd) as [Ld|]; [|apply (Hstop _ H)];
+    destruct (negb _); [apply (Hstop _ H)|];
+    destruct (existsb _ _); [apply (Hstop _ H)|];
+    destruct (_ || _); [apply (Hstop _ H)|];
+    destruct (optimize_partition_by _ _ pb) as [mode|e0]; [|apply (Hstop _ H)];
+    destruct (comment (st_wl s) label) as [w e1] eqn:Ec;
+    pose proof (emits_quiet _ _ (comment_quiet _ _ _ _ Ec)) as H1;
+    (destruct e1 as [e1|]; [injection H as <- <-; exact H1|]);
+    match type of H with context [exec ?st ?k1 ?k2 ?a ?sc ?kk] =>
+      destruct (exec st k1 k2 a sc kk) as [s1 e2] eqn:Ee end;
+    pose proof (emits_bounded_trans _ _ _ H1 (exec_emits _ _ _ _ _ _ _ _ Ee)) as H2;
+    (destruct e2 as [e2|]; [injection H as <- <-; exact H2|]);
+    destruct (ks =? kd)%nat; injection H as <- <-; rewrite ?st_wl_condense; exact H2.
 Qed.
